@@ -26,7 +26,8 @@ def main():
     pid, n = sys.argv[1], sys.argv[2]
     checks = sys.argv[3:] or [pid]
     wt = '/tmp/seed/%s' % pid
-    src = '/tmp/seed/out_%s/%s' % (pid, n)
+    rnd = os.environ.get('SEED_ROUND', '1')
+    src = '/tmp/seed/out%s_%s/%s' % ('' if rnd == '1' else rnd, pid, n)
     patch = os.path.join(src, 'patch.diff')
     demo = os.path.join(src, 'demo.py')
     meta = {'property': pid, 'seed': n, 'ran': []}
@@ -57,7 +58,7 @@ def main():
     finally:
         sh('rm -rf %s' % tmp)
     meta['detected_by'] = [r['check'].split()[1] for r in meta['ran'] if r['rc'] == 1]
-    dst = os.path.join(VERIF, 'seeded', '%s-%s' % (pid, n))
+    dst = os.path.join(VERIF, 'seeded', ('%s-%s' % (pid, n)) if rnd == '1' else ('%s-r%s-%s' % (pid, rnd, n)))
     os.makedirs(dst, exist_ok=True)
     for f in ('patch.diff', 'demo.py', 'notes.md'):
         if os.path.exists(os.path.join(src, f)):
